@@ -81,6 +81,11 @@ def configs(tier, eps):
             for dst in ("absent", "existing"):
                 out.append({"ep": 3, "overwrite": True, "ns": ns, "na": 0, "dst": dst})
             out.append({"ep": 3, "overwrite": "default", "ns": ns, "na": 0, "dst": "absent"})
+        # destination names a careless path computation mishandles: glob metacharacters in the file name, and a path
+        # through a symlinked directory followed by ".." (both absent: the fault-free and faulty runs must behave as
+        # for any absent destination)
+        out.append({"ep": 3, "overwrite": True, "ns": 1, "na": 0, "dst": "brackets"})
+        out.append({"ep": 3, "overwrite": True, "ns": 1, "na": 0, "dst": "dotdot"})
     if 4 in eps:
         combos = [(0, 1), (1, 2)] if tier == "quick" else [(0, 1), (0, 2), (1, 1), (1, 2), (3, 1)]
         for ns, na in combos:
